@@ -21,7 +21,10 @@ import (
 	"net/http"
 	"os"
 	"path/filepath"
+	goruntime "runtime"
 	"strings"
+	"sync"
+	"time"
 
 	"github.com/go-openapi/runtime"
 	"github.com/go-openapi/runtime/client"
@@ -70,13 +73,15 @@ type Payload struct {
 }
 
 type Case struct {
-	Media   string
-	Payload Payload
-	Fields  []KV
-	Files   []FileField
-	Auth    bool
-	K       int
-	Via     string // create | submit
+	Method   string // "" = POST
+	PresetCT string // a Content-Type header set by the params writer
+	Media    string
+	Payload  Payload
+	Fields   []KV
+	Files    []FileField
+	Auth     bool
+	K        int
+	Via      string // create | submit
 }
 
 func (c Case) JSON() M {
@@ -96,9 +101,36 @@ func (c Case) JSON() M {
 	if c.Payload.Kind == "" {
 		c.Payload.Kind = "none"
 	}
-	return M{"media": c.Media,
+	method := c.Method
+	if method == "" {
+		method = "POST"
+	}
+	return M{"media": c.Media, "method": method, "presetct": c.PresetCT,
 		"payload": M{"kind": c.Payload.Kind, "vkind": c.Payload.VKind, "len": c.Payload.Len, "seed": c.Payload.Seed, "chunk": c.Payload.Chunk},
 		"fields":  fields, "files": files, "auth": c.Auth, "k": c.K, "via": c.Via}
+}
+
+// Batch is what one trace case is: one request, or several requests overlapping in time.
+type Batch struct {
+	Reqs  []Case
+	Mode  string // single | build-then-send | concurrent
+	Procs int    // GOMAXPROCS while building (0 = unchanged)
+}
+
+func (b Batch) JSON() M {
+	rs := make([]M, 0, len(b.Reqs))
+	for _, r := range b.Reqs {
+		rs = append(rs, r.JSON())
+	}
+	return M{"reqs": rs, "mode": b.Mode, "procs": b.Procs}
+}
+
+func batchFrom(d M) Batch {
+	b := Batch{Mode: drv.Str(d["mode"]), Procs: drv.Int(d["procs"])}
+	for _, r := range drv.List(d["reqs"]) {
+		b.Reqs = append(b.Reqs, caseFrom(drv.Map(r)))
+	}
+	return b
 }
 
 func caseFrom(d M) Case {
@@ -126,6 +158,7 @@ func caseFrom(d M) Case {
 		c.Files = append(c.Files, ff)
 	}
 	c.Auth, c.K, c.Via = drv.Bool(d["auth"]), drv.Int(d["k"]), drv.Str(d["via"])
+	c.Method, c.PresetCT = drv.Str(d["method"]), drv.Str(d["presetct"])
 	return c
 }
 
@@ -304,31 +337,44 @@ func scratchDir() string {
 	return tmpDir
 }
 
-func execute(c *drv.Ctx, d M) bool {
-	cs := caseFrom(d)
+// prepared is one request ready to be built / sent, with its observers.
+type prepared struct {
+	cs              Case
+	rt              *client.Runtime
+	op              *runtime.ClientOperation
+	rec             *recorder
+	supplied        M
+	authSaw         []string
+	producersCalled []string
+	produced        []byte
+	toRemove        []string
+	callErr         error
+	panicked        bool
+}
+
+func prepare(cs Case) *prepared {
+	p := &prepared{cs: cs, rec: &recorder{}, authSaw: []string{}}
 	rt := client.New("h:1", "/api", []string{"http"})
+	p.rt = rt
 	// every registered producer is wrapped so that the call and its output are observed
-	var producersCalled []string
-	var produced []byte
-	for mt, p := range rt.Producers {
-		mt, p := mt, p
+	for mt, pr := range rt.Producers {
+		mt, pr := mt, pr
 		rt.Producers[mt] = runtime.ProducerFunc(func(w io.Writer, v any) error {
-			producersCalled = append(producersCalled, mt)
+			p.producersCalled = append(p.producersCalled, mt)
 			var tee bytes.Buffer
-			err := p.Produce(io.MultiWriter(w, &tee), v)
-			produced = append(produced, tee.Bytes()...)
+			err := pr.Produce(io.MultiWriter(w, &tee), v)
+			p.produced = append(p.produced, tee.Bytes()...)
 			return err
 		})
 	}
-	supplied := M{"payload": "", "files": [][]string{}}
-	var toRemove []string
+	p.supplied = M{"payload": "", "files": [][]string{}}
 	var payload any
 	switch cs.Payload.Kind {
 	case "value":
 		payload = mkValue(cs.Payload)
 	case "reader", "readcloser":
 		data := content(Item{Len: cs.Payload.Len, Head: "bin", Seed: cs.Payload.Seed})
-		supplied["payload"] = sha(data)
+		p.supplied["payload"] = sha(data)
 		src := &source{data: data, chunk: cs.Payload.Chunk}
 		switch {
 		case cs.Payload.Kind == "readcloser":
@@ -363,7 +409,7 @@ func execute(c *drv.Ctx, d M) bool {
 				if err := os.WriteFile(path, data, 0o600); err != nil {
 					panic(err)
 				}
-				toRemove = append(toRemove, dir)
+				p.toRemove = append(p.toRemove, dir)
 				f, err := os.Open(path)
 				if err != nil {
 					panic(err)
@@ -385,9 +431,15 @@ func execute(c *drv.Ctx, d M) bool {
 		fileShas = append(fileShas, shas)
 		uploads = append(uploads, u)
 	}
-	supplied["files"] = fileShas
+	p.supplied["files"] = fileShas
 
 	params := runtime.ClientRequestWriterFunc(func(r runtime.ClientRequest, _ strfmt.Registry) error {
+		if cs.PresetCT != "" {
+			// a header parameter / decorator of the caller
+			if err := r.SetHeaderParam("Content-Type", cs.PresetCT); err != nil {
+				return err
+			}
+		}
 		if payload != nil {
 			if err := r.SetBodyParam(payload); err != nil {
 				return err
@@ -405,62 +457,144 @@ func execute(c *drv.Ctx, d M) bool {
 		}
 		return nil
 	})
-	authSaw := []string{}
 	var auth runtime.ClientAuthInfoWriter
 	if cs.Auth {
 		auth = runtime.ClientAuthInfoWriterFunc(func(r runtime.ClientRequest, _ strfmt.Registry) error {
 			for i := 0; i < cs.K; i++ {
-				authSaw = append(authSaw, sha(r.GetBody()))
+				p.authSaw = append(p.authSaw, sha(r.GetBody()))
 			}
 			return nil
 		})
 	}
-	op := &runtime.ClientOperation{ID: "op", Method: http.MethodPost, PathPattern: "/upload",
+	method := cs.Method
+	if method == "" {
+		method = http.MethodPost
+	}
+	p.op = &runtime.ClientOperation{ID: "op", Method: method, PathPattern: "/upload",
 		ConsumesMediaTypes: []string{cs.Media}, ProducesMediaTypes: []string{"application/json"},
 		Params: params, AuthInfo: auth,
 		Reader: runtime.ClientResponseReaderFunc(func(runtime.ClientResponse, runtime.Consumer) (any, error) { return nil, nil })}
+	return p
+}
 
-	rec := &recorder{}
-	var callErr error
-	panicked := false
-	func() {
-		defer func() {
-			if e := recover(); e != nil {
-				panicked = true
-				callErr = fmt.Errorf("panic: %v", e)
-			}
-		}()
-		if cs.Via == "submit" {
-			rt.Transport = rec
-			_, callErr = rt.Submit(op)
-		} else {
-			req, err := rt.CreateHttpRequest(op)
-			if err != nil {
-				callErr = err
-				return
-			}
-			_, _ = rec.RoundTrip(req)
-		}
-		if callErr == nil && rec.err != nil {
-			callErr = rec.err
+func (p *prepared) guard(f func()) {
+	defer func() {
+		if e := recover(); e != nil {
+			p.panicked = true
+			p.callErr = fmt.Errorf("panic: %v", e)
 		}
 	}()
-	for _, d := range toRemove {
+	f()
+}
+
+// build creates the request (the multipart writer goroutine starts here); send reads it.
+func (p *prepared) build() (req *http.Request) {
+	p.guard(func() {
+		r, err := p.rt.CreateHttpRequest(p.op)
+		if err != nil {
+			p.callErr = err
+			return
+		}
+		req = r
+	})
+	return req
+}
+
+func (p *prepared) send(req *http.Request) {
+	if req == nil {
+		return
+	}
+	p.guard(func() {
+		_, _ = p.rec.RoundTrip(req)
+		if p.callErr == nil && p.rec.err != nil {
+			p.callErr = p.rec.err
+		}
+	})
+}
+
+func (p *prepared) submit() {
+	p.guard(func() {
+		p.rt.Transport = p.rec
+		_, p.callErr = p.rt.Submit(p.op)
+		if p.callErr == nil && p.rec.err != nil {
+			p.callErr = p.rec.err
+		}
+	})
+}
+
+func (p *prepared) event(idx int) M {
+	for _, d := range p.toRemove {
 		os.RemoveAll(d)
 	}
-	if cs.Payload.Kind == "value" {
-		supplied["payload"] = sha(produced)
+	if p.cs.Payload.Kind == "value" {
+		p.supplied["payload"] = sha(p.produced)
 	}
-
-	ev := M{"err": callErr != nil, "panic": panicked, "supplied": supplied, "auth_saw": authSaw,
-		"producers": trace.S(producersCalled), "body_len": len(rec.body), "body_sha": sha(rec.body),
-		"ct": ascii(rec.hdr.Get("Content-Type")), "ctmedia": "", "boundary": false, "kind": "bytes",
+	ev := M{"req": idx, "err": p.callErr != nil, "panic": p.panicked, "supplied": p.supplied, "auth_saw": p.authSaw,
+		"producers": trace.S(p.producersCalled), "body_len": len(p.rec.body), "body_sha": sha(p.rec.body),
+		"ct": ascii(p.rec.hdr.Get("Content-Type")), "ctmedia": "", "boundary": false, "kind": "bytes",
 		"raw": []int{}, "pairs": []M{}, "parts": []M{}, "payload": []string{}}
-	if callErr == nil {
-		describe(ev, cs, rec)
+	if p.callErr == nil {
+		describe(ev, p.cs, p.rec)
 	}
-	c.W.Event("sent", ev)
-	return nontrivial(cs)
+	return ev
+}
+
+func execute(c *drv.Ctx, d M) bool {
+	b := batchFrom(d)
+	ps := make([]*prepared, len(b.Reqs))
+	for i, cs := range b.Reqs {
+		ps[i] = prepare(cs)
+	}
+	switch b.Mode {
+	case "build-then-send":
+		// all requests are built (their writer goroutines sniff and block on their pipes) before
+		// the first body is read; bodies are then read in reverse order
+		old := 0
+		if b.Procs > 0 {
+			old = goruntime.GOMAXPROCS(b.Procs)
+		}
+		reqs := make([]*http.Request, len(ps))
+		for i, p := range ps {
+			reqs[i] = p.build()
+			for k := 0; k < 4; k++ {
+				goruntime.Gosched()
+			}
+		}
+		time.Sleep(2 * time.Millisecond)
+		for i := len(ps) - 1; i >= 0; i-- {
+			ps[i].send(reqs[i])
+		}
+		if b.Procs > 0 {
+			goruntime.GOMAXPROCS(old)
+		}
+	case "concurrent":
+		var wg sync.WaitGroup
+		start := make(chan struct{})
+		for _, p := range ps {
+			wg.Add(1)
+			go func(p *prepared) {
+				defer wg.Done()
+				<-start
+				p.submit()
+			}(p)
+		}
+		close(start)
+		wg.Wait()
+	default:
+		for _, p := range ps {
+			if p.cs.Via == "submit" {
+				p.submit()
+			} else {
+				p.send(p.build())
+			}
+		}
+	}
+	nt := false
+	for i, p := range ps {
+		c.W.Event("sent", p.event(i+1))
+		nt = nt || nontrivial(p.cs)
+	}
+	return nt
 }
 
 // describe parses what was sent (abstraction functions: mime, mime/multipart).
@@ -544,9 +678,9 @@ const (
 )
 
 var fileNames = []string{"f.txt", "dir/f.txt", "/abs/path/to/report.pdf", "a\"b.txt", "back\\slash.bin", "sp ace;semi.txt",
-	"caf\xc3\xa9.png", "trailing/", "", "..", "x/../y", "very" + strings.Repeat("long", 40) + ".dat", "=?utf-8?q?enc?=", "a'b", "100%.txt"}
-var fieldNames = []string{"file", "files[]", "up\"load", "a b", "\xc3\xa9", "f\\g", "x;y=z"}
-var formKeys = []string{"k", "name", "a b", "x&y=z", "q\"uote", "\xc3\xa9", "k[]"}
+	"caf\xc3\xa9.png", "trailing/", "", "..", "x/../y", "report\\(1).pdf", "double\\\\backslash.txt", "unc\\\\server\\share\\doc.txt", "trailing\\", "a\\;b=c\\?.txt", "very" + strings.Repeat("long", 40) + ".dat", "=?utf-8?q?enc?=", "a'b", "100%.txt"}
+var fieldNames = []string{"file", "files[]", "up\"load", "a b", "\xc3\xa9", "f\\g", "x;y=z", "f\\\\g", "fld\\", "f\\(1)"}
+var formKeys = []string{"k", "name", "a b", "x&y=z", "q\"uote", "\xc3\xa9", "k[]", "k\\\\", "key\\", "p\\(x)"}
 var formVals = []string{"", "v", "a b", "a+b&c=d", "100%", "\xc3\xa9\xe2\x98\x83", "line1\r\nline2", "--boundary", "\"q\"", strings.Repeat("long ", 40), "\x00\x01"}
 
 func wellFormed(it Item) bool {
@@ -565,7 +699,8 @@ func wellFormed(it Item) bool {
 func generate(c *drv.Ctx) {
 	thorough := c.Tier == "thorough"
 	n := 0
-	emit := func(cs Case) { c.Case(cs.JSON()); n++ }
+	emit := func(cs Case) { c.Case(Batch{Reqs: []Case{cs}, Mode: "single"}.JSON()); n++ }
+	emitBatch := func(b Batch) { c.Case(b.JSON()); n++ }
 	// (i) sniffing window, exhaustive
 	lens := []int{0, 1, 2, 16, 100, 511, 512, 513, 1024, 1500}
 	chunks := []int{0, 1, 7, 511, 512, 513}
@@ -701,6 +836,69 @@ func generate(c *drv.Ctx) {
 			}
 		}
 	}
+	// (iv-b) stream and value payloads x methods (also those "without body") x a Content-Type already set by the params writer
+	for _, p := range []Payload{{Kind: "reader", VKind: "chunked"}, {Kind: "readcloser", VKind: "chunked"}, {Kind: "reader", VKind: "bytesbuffer"},
+		{Kind: "value", VKind: "json-map"}, {Kind: "none"}} {
+		for _, method := range []string{"GET", "OPTIONS", "POST", "PUT", "PATCH", "DELETE"} {
+			for _, preset := range []string{"", "application/json", "text/plain", "application/octet-stream"} {
+				for _, media := range []string{mJSON, "application/octet-stream"} {
+					if p.Kind == "value" && media != mJSON {
+						continue
+					}
+					for k := -1; k <= 1; k++ {
+						seed++
+						q := p
+						q.Len, q.Seed = 300, seed
+						cs := Case{Method: method, PresetCT: preset, Media: media, Payload: q, Via: []string{"create", "submit"}[seed%2]}
+						if k >= 0 {
+							cs.Auth, cs.K = true, k
+						}
+						emit(cs)
+					}
+				}
+			}
+		}
+	}
+	for _, media := range []string{mForm, mMulti} {
+		for _, preset := range []string{"application/json", "text/plain"} {
+			emit(Case{PresetCT: preset, Media: media, Fields: []KV{{"k", []string{"v"}}}, Via: "create"})
+			seed++
+			emit(Case{PresetCT: preset, Media: media, Files: []FileField{{"file", []Item{{Name: "a.txt", Len: 700, Head: "text", Src: "reader", Seed: seed}}}}, Via: "submit"})
+		}
+	}
+	// (iv-c) uploads overlapping in time: all requests of a batch are built before the first is sent (single P, then all Ps),
+	// or submitted concurrently; every file without declared type, distinct contents
+	mkUpload := func(i, l int, declared string) Case {
+		seed++
+		cs := Case{Media: mMulti, Via: "create", Files: []FileField{{"file", []Item{{Name: fmt.Sprintf("f%d.txt", i), Declared: declared, Len: l, Head: "text", Src: "reader", Seed: seed}}}}}
+		if i%3 == 0 {
+			seed++
+			cs.Files = append(cs.Files, FileField{"more", []Item{{Name: "g.bin", Len: 100 + l, Head: "bin", Src: "reader", Seed: seed}}})
+			cs.Fields = []KV{{"k", []string{"v"}}}
+		}
+		return cs
+	}
+	nBatches := 3
+	if thorough {
+		nBatches = 12
+	}
+	for bi := 0; bi < nBatches; bi++ {
+		for _, cfg := range []struct {
+			mode  string
+			procs int
+			n     int
+		}{{"build-then-send", 1, 8}, {"build-then-send", 0, 48}, {"concurrent", 0, 48}} {
+			b := Batch{Mode: cfg.mode, Procs: cfg.procs}
+			for i := 0; i < cfg.n; i++ {
+				decl := ""
+				if i%7 == 6 {
+					decl = "text/csv"
+				}
+				b.Reqs = append(b.Reqs, mkUpload(i, []int{11, 600, 511, 513, 5000}[(i+bi)%5], decl))
+			}
+			emitBatch(b)
+		}
+	}
 	c.Extra["exhaustive_cases"] = n
 	// (v) seeded random mixtures
 	nr := 6000
@@ -732,6 +930,10 @@ func randomCase(c *drv.Ctx) Case {
 			}
 		}
 		cs.Media, cs.Payload = m, p
+		cs.Method = []string{"POST", "POST", "PUT", "PATCH", "DELETE", "GET", "OPTIONS"}[r.Intn(7)]
+		if r.Intn(4) == 0 {
+			cs.PresetCT = []string{"application/json", "text/plain", "application/xml"}[r.Intn(3)]
+		}
 		return cs
 	case 1: // fields only
 		cs.Media = []string{mForm, mMulti}[r.Intn(2)]
